@@ -18,7 +18,7 @@
 
    event  [id, ts, x, g]
      x : measure value  [k \in {"int","flt","numstr","text","absent"}, n, c]
-         n = numeric value scaled by 4 (quarters) for int/flt/numstr, c = label for text
+         n = numeric value scaled by 1000 (thousandths) for int/flt/numstr, c = label for text
      g : group key      [k \in {"str","num","bool","empty","absent"}, c]
    Defect # "none" switches on a known-bad variant (model sensitivity only). *)
 EXTENDS Integers, Sequences, FiniteSets, TLC
